@@ -429,6 +429,40 @@ def reprRowTups (names : List (List Nat)) : List (List Rep) → List PT
   | row :: r => .tup (zipNT names (reprList row)) :: reprRowTups names r
 end
 
+/-! ### Relation.Format and the physical column order
+
+`Rep.rel names rows` is the relation as Relation.Format must show it: heading `attrs.GetSorted()`, every row projected
+to that heading (`projectionBasedOnNames`, `Values.project`).  The relation itself stores its columns in some physical
+order `phys` (sorted for a literal; left operand's columns then the right operand's new ones for a join result).
+`relView` is that step of Format; `Arrai/Proofs/C12.lean` proves that it hands every attribute the value stored for
+it, whatever the physical order (`relation_row_projection`, `relation_heading_is_permutation`). -/
+
+/-- Go's string order on names (bytes of the UTF-8 text = code points) -/
+def nameLt : List Nat → List Nat → Bool
+  | [], [] => false
+  | [], _ :: _ => true
+  | _ :: _, [] => false
+  | a :: as, b :: bs => if a < b then true else if b < a then false else nameLt as bs
+
+def insName (n : List Nat) : List (List Nat) → List (List Nat)
+  | [] => [n]
+  | m :: r => if nameLt m n then m :: insName n r else n :: m :: r
+
+/-- TupleOrderedNames / attrs.GetSorted (an insertion sort: it has to reduce in the kernel) -/
+def sortNames (ns : List (List Nat)) : List (List Nat) := ns.foldr insName []
+
+def lookupName {α : Type} (n : List Nat) : List (List Nat × α) → Option α
+  | [] => none
+  | (k, v) :: r => if k = n then some v else lookupName n r
+
+/-- `Values.project(projectionBasedOnNames(heading))` on a row stored in the order `phys` -/
+def projectRow {α : Type} (phys : List (List Nat)) (row : List α) (heading : List (List Nat)) : List (Option α) :=
+  heading.map (fun n => lookupName n (phys.zip row))
+
+/-- heading and rows as printed, from the physical representation -/
+def relView {α : Type} (phys : List (List Nat)) (rows : List (List α)) : List (List Nat) × List (List (Option α)) :=
+  (sortNames phys, rows.map (fun row => projectRow phys row (sortNames phys)))
+
 /-- pkg/arrai/out.go OutputValue at top level: strings and byte arrays are written raw, the empty set as
 nothing, everything else through fu.Repr -/
 inductive OutMode | raw | empty | repr
